@@ -653,7 +653,7 @@ func (x *Exec) doCall(st *State, call *ssa.CallCommon, instr ssa.Instruction, po
 
 func (x *Exec) havocForUnknown(st *State) {
 	x.havocAll(st)
-	for cell := range x.escaped {
+	for _, cell := range sortedAllocs(x.escaped) {
 		if _, ok := st.cells[cell]; ok {
 			t := deref(cell.Type())
 			st.cells[cell] = x.freshValue("esc_"+cell.Comment, t)
@@ -860,7 +860,7 @@ func (x *Exec) havocClosureArgs(st *State, call *ssa.CallCommon, args []Value) {
 		if mc, ok := call.Args[k].(*ssa.MakeClosure); ok {
 			cells := map[*ssa.Alloc]bool{}
 			x.w.closureCellWrites(f.Fn, mc, cells)
-			for cell := range cells {
+			for _, cell := range sortedAllocs(cells) {
 				if _, ok := st.cells[cell]; ok {
 					t := deref(cell.Type())
 					st.cells[cell] = x.freshValue("cl_"+cell.Comment, t)
